@@ -148,6 +148,7 @@ type Recorder struct {
 	nonVacuousAcks int64
 	acksChecked    int64
 	finalAckAt     map[string]int64 // source -> vt ms when SRC_ACK == final first seen
+	lastResumeAt   int64 // vt ms at which a stalled target last resumed reading
 	lastConfirmAt  int64
 	lastProgressAt int64 // vt ms of the last delivery of a task, confirmation, or increase of a source's ack
 }
@@ -769,6 +770,7 @@ func (c *cluster) runTargetInc(ctx context.Context, shard int, h adminservice.Ad
 			}
 			select {
 			case <-time.After(time.Duration(beh.ResumeReadMS) * time.Millisecond):
+				w.Rec.NoteResume()
 			case <-sctx.Done():
 				<-handlerDone
 				return reconnectDelay(w.Sc, c.name(shard))
@@ -858,6 +860,14 @@ func (w *World) breakTarget(shard string) {
 
 func farmOwner(ns, wf string, n int) int {
 	return int(farm.Fingerprint32([]byte(ns+"_"+wf))%uint32(n)) + 1
+}
+
+// NoteResume: a target that had stopped reading reads again (the bounded-progress clock of the fair
+// class starts no earlier: what sat unread in front of a stalled target could not be acknowledged)
+func (r *Recorder) NoteResume() {
+	r.mu.Lock()
+	r.lastResumeAt = r.now()
+	r.mu.Unlock()
 }
 
 // NowMS: the recorder's clock (ms since it was created).
